@@ -1,1 +1,1273 @@
-"""(stub)"""
+"""C17 helper: case families for hashes/XOFs/MACs, constructor parameter lengths, strxor, scrypt, bcrypt,
+PKCS#1 decoders, elliptic curves, modular exponentiation, cpuid, and object life-cycle histories."""
+import gc
+import itertools
+
+from . import _c17_cases as C
+from ._c17_cases import S, data, other, mod, lens_for, family, HarnessBug, BLOCK, KEYLEN
+
+# ---------------------------------------------------------------------------------------------------
+# hashes, XOFs, MACs
+# ---------------------------------------------------------------------------------------------------
+# name: (module, kwargs, block, final)     final: "d" digest(), "r" read(n)
+HASHES = {
+    "MD2": ("MD2", {}, 16, "d"), "MD4": ("MD4", {}, 64, "d"), "MD5": ("MD5", {}, 64, "d"),
+    "RIPEMD160": ("RIPEMD160", {}, 64, "d"), "SHA1": ("SHA1", {}, 64, "d"), "SHA224": ("SHA224", {}, 64, "d"),
+    "SHA256": ("SHA256", {}, 64, "d"), "SHA384": ("SHA384", {}, 128, "d"), "SHA512": ("SHA512", {}, 128, "d"),
+    "SHA512-224": ("SHA512", {"truncate": "224"}, 128, "d"), "SHA512-256": ("SHA512", {"truncate": "256"}, 128, "d"),
+    "SHA3-224": ("SHA3_224", {}, 144, "d"), "SHA3-256": ("SHA3_256", {}, 136, "d"),
+    "SHA3-384": ("SHA3_384", {}, 104, "d"), "SHA3-512": ("SHA3_512", {}, 72, "d"),
+    "keccak-224": ("keccak", {"digest_bits": 224}, 144, "d"), "keccak-256": ("keccak", {"digest_bits": 256}, 136, "d"),
+    "keccak-384": ("keccak", {"digest_bits": 384}, 104, "d"), "keccak-512": ("keccak", {"digest_bits": 512}, 72, "d"),
+    "BLAKE2b-512": ("BLAKE2b", {"digest_bytes": 64}, 128, "d"),
+    "BLAKE2b-1-keyed64": ("BLAKE2b", {"digest_bytes": 1, "key": 64}, 128, "d"),
+    "BLAKE2s-256": ("BLAKE2s", {"digest_bytes": 32}, 64, "d"),
+    "BLAKE2s-1-keyed32": ("BLAKE2s", {"digest_bytes": 1, "key": 32}, 64, "d"),
+    "SHAKE128": ("SHAKE128", {}, 168, "r"), "SHAKE256": ("SHAKE256", {}, 136, "r"),
+    "cSHAKE128": ("cSHAKE128", {"custom": 7}, 168, "r"), "cSHAKE256": ("cSHAKE256", {"custom": 7}, 136, "r"),
+    "cSHAKE128-nocustom": ("cSHAKE128", {}, 168, "r"),
+    "TurboSHAKE128": ("TurboSHAKE128", {}, 168, "r"), "TurboSHAKE256": ("TurboSHAKE256", {"domain": 0x0B}, 136, "r"),
+    "KangarooTwelve": ("KangarooTwelve", {}, 8192, "r"), "KangarooTwelve-custom": ("KangarooTwelve", {"custom": 5}, 8192, "r"),
+    "TupleHash128": ("TupleHash128", {"digest_bytes": 32}, 168, "d"), "TupleHash256": ("TupleHash256", {"digest_bytes": 64}, 136, "d"),
+    "KMAC128": ("KMAC128", {"key": 16, "mac_len": 16}, 168, "d"), "KMAC256": ("KMAC256", {"key": 32, "mac_len": 64, "custom": 3}, 136, "d"),
+    "Poly1305-AES": ("Poly1305", {"key": 32, "cipher": "AES", "nonce": 16}, 16, "d"),
+    "Poly1305-ChaCha20": ("Poly1305", {"key": 32, "cipher": "ChaCha20", "nonce": 12}, 16, "d"),
+    "Poly1305-ChaCha20-n8": ("Poly1305", {"key": 32, "cipher": "ChaCha20", "nonce": 8}, 16, "d"),
+}
+for _d, _b in (("MD2", 16), ("MD4", 64), ("MD5", 64), ("SHA1", 64), ("SHA224", 64), ("SHA256", 64), ("SHA384", 128),
+               ("SHA512", 128), ("RIPEMD160", 64), ("SHA3_256", 136), ("SHA3_512", 72)):
+    HASHES["HMAC-" + _d] = ("HMAC", {"key": 20, "digestmod": _d}, _b, "d")
+for _c in ("AES", "DES3", "DES", "Blowfish", "CAST", "ARC2"):
+    HASHES["CMAC-" + _c] = ("CMAC", {"key": KEYLEN[_c], "ciphermod": _c}, BLOCK[_c], "d")
+HASHES["CMAC-AES256-mac4"] = ("CMAC", {"key": 32, "ciphermod": "AES", "mac_len": 4}, 16, "d")
+HASHES["CMAC-AES-noaesni"] = ("CMAC", {"key": 16, "ciphermod": "AES", "cipher_params": {"use_aesni": False}}, 16, "d")
+
+NO_COPY = ("BLAKE2", "keccak", "KMAC", "TupleHash", "cSHAKE", "TurboSHAKE", "KangarooTwelve", "Poly1305")
+DATA_KW = {"HMAC": "msg", "CMAC": "msg"}
+
+
+def new_hash(name, pl, guard=True, first=None, over=None):
+    """fresh object; buffers among the parameters are guard-paged; `first` = data passed to the constructor"""
+    modname, kw0, block, fin = HASHES[name]
+    m = mod("Crypto.Hash." + modname)
+    kw = dict(kw0)
+    if over:
+        kw.update(over)
+    for k, ar, off in (("key", S.K, 1000), ("custom", S.A, 2000), ("nonce", S.T, 2100)):
+        if isinstance(kw.get(k), int):
+            n = kw[k]
+            # KangarooTwelve concatenates its customization string in Python: bytes only
+            g = guard and not (k == "custom" and modname == "KangarooTwelve")
+            kw[k] = ar.view(n, pl, data(n, off)) if g else data(n, off)
+    if "digestmod" in kw:
+        kw["digestmod"] = mod("Crypto.Hash." + kw["digestmod"])
+    if "ciphermod" in kw:
+        kw["ciphermod"] = mod("Crypto.Cipher." + kw["ciphermod"])
+    if "cipher" in kw:
+        kw["cipher"] = mod("Crypto.Cipher." + kw["cipher"])
+    if modname in ("HMAC", "CMAC"):
+        key = kw.pop("key")
+        if first is not None:
+            kw["msg"] = first
+        return m.new(key, **kw)
+    if modname.startswith("TupleHash"):
+        h = m.new(**kw)
+        if first is not None:
+            h.update(first)
+        return h
+    if first is not None:
+        kw["data"] = first
+    return m.new(**kw)
+
+
+def finish(h, name, n=None):
+    fin = HASHES[name][3]
+    if fin == "d":
+        r = h.digest()
+    else:
+        r = h.read(33 if n is None else n)
+        if n is not None and len(r) != n:
+            return "ret-shape:read(%d)->%d" % (n, len(r))
+    return "ok" if type(r) is bytes else "ret-shape:%s" % type(r).__name__
+
+
+@family("hash")
+class Hash(object):
+    @staticmethod
+    def shards(tier):
+        out = []
+        for name in HASHES:
+            out.append(("hash", name, "data"))
+            out.append(("hash", name, "param"))
+        return out
+
+    @staticmethod
+    def gen(shard, tier):
+        _, name, part = shard
+        modname, kw, block, fin = HASHES[name]
+        primary = tier == "thorough" or not name.startswith(("HMAC-", "CMAC-")) or name in ("HMAC-SHA256", "HMAC-SHA3_256", "CMAC-AES", "CMAC-DES3")
+        lens = lens_for(tier, block if block < 1000 else 64, big=primary)
+        out = []
+        if part == "data":
+            pres = [0, 1, block - 1]
+            if block == 8192:
+                pres += [8192, 8193]
+            for pre in pres:
+                for L in lens:
+                    if L > 8193 and pre and block != 8192:
+                        continue
+                    for pl in "ES":
+                        out.append(("hash", name, "U", pre, L, pl))
+            for L in lens:
+                for pl in "ES":
+                    out.append(("hash", name, "N", 0, L, pl))
+            b = block if block < 1000 else 168
+            for L1 in (0, 1, b - 1, b, b + 1):
+                for L2 in (0, 1, b - 1, b, b + 1, 2 * b + 1):
+                    for pl in "ES":
+                        out.append(("hash", name, "UU", L1, L2, pl))
+            if not modname.startswith(NO_COPY):
+                for pre in (0, 1, block - 1, block):
+                    for L in (0, 1, block - 1, block, block + 1):
+                        for pl in "ES":
+                            out.append(("hash", name, "C", pre, L, pl))
+            if fin == "r":
+                rl = lens_for(tier, block if block < 1000 else 168, big=True)
+                for L in (0, 1, 200):
+                    for r1 in rl:
+                        for r2 in (0, 1, 167, 168, 169):
+                            if r1 > 8193 and (L or r2 > 1):
+                                continue
+                            out.append(("hash", name, "R", L, r1, r2))
+        else:
+            # constructor parameters that are buffers or lengths
+            if "key" in kw:
+                kl = lens_for(tier, block if block < 1000 else 64, big=False)
+                for n in kl:
+                    for pl in "ES":
+                        out.append(("hash", name, "P", "key", n, pl))
+            if modname.startswith(("cSHAKE", "KMAC", "TupleHash", "KangarooTwelve")):
+                cl = lens_for(tier, 168, big=(modname == "KangarooTwelve"))
+                for n in cl:
+                    for pl in "ES":
+                        out.append(("hash", name, "P", "custom", n, pl))
+            if "nonce" in kw:
+                for n in range(0, 34):
+                    for pl in "ES":
+                        out.append(("hash", name, "P", "nonce", n, pl))
+            if "mac_len" in kw or modname == "CMAC":
+                for n in list(range(0, 70)) + [127, 128, 129, 255, 256, 257, 1000, 65536, -1]:
+                    out.append(("hash", name, "P", "mac_len", n, "E"))
+            if "digest_bytes" in kw or modname == "keccak":
+                for n in list(range(0, 70)) + [127, 128, 129, 255, 256, 257, 1000, 65536, -1]:
+                    out.append(("hash", name, "P", "digest_bytes", n, "E"))
+            if modname.startswith("TurboSHAKE"):
+                for n in range(-1, 260):
+                    out.append(("hash", name, "P", "domain", n, "E"))
+            if modname.startswith("TupleHash"):
+                for ls in itertools.product((0, 1, 167, 168, 169), repeat=2):
+                    for pl in "ES":
+                        out.append(("hash", name, "TUP", ls[0], ls[1], pl))
+        return out
+
+    @staticmethod
+    def group(case):
+        return "%s.%s" % (HASHES[case[1]][0], case[2])
+
+    @staticmethod
+    def run(case):
+        _, name, op, a, b, pl = case
+        if op == "U":
+            h = new_hash(name, pl)
+            if a:
+                h.update(data(a, 5000))
+            h.update(S.IN.view(b, pl, data(b)))
+            return finish(h, name)
+        if op == "N":
+            h = new_hash(name, pl, first=S.IN.view(b, pl, data(b)))
+            return finish(h, name)
+        if op == "UU":
+            h = new_hash(name, pl)
+            h.update(S.IN.view(a, pl, data(a)))
+            h.update(S.A.view(b, other(pl), data(b, 3000)))
+            return finish(h, name)
+        if op == "C":
+            h = new_hash(name, pl)
+            h.update(data(a, 5000))
+            c = h.copy()
+            c.update(S.IN.view(b, pl, data(b)))
+            h.update(S.A.view(b, pl, data(b, 3000)))
+            r = finish(h, name)
+            del h
+            gc.collect()
+            r2 = finish(c, name)
+            c2 = c.copy()
+            del c
+            if HASHES[name][3] == "d":
+                finish(c2, name)
+            return r if r != "ok" else r2
+        if op == "R":
+            h = new_hash(name, "E", guard=False)
+            h.update(data(a, 5000))
+            r = finish(h, name, b)
+            if r != "ok":
+                return r
+            return finish(h, name, pl)
+        if op == "P":
+            h = new_hash(name, pl, over={a: b})
+            h.update(S.IN.view(33, pl, data(33)))
+            r = finish(h, name)
+            if HASHES[name][3] == "d" and a in ("mac_len", "digest_bytes"):
+                d = h.digest()
+                if len(d) != b:
+                    return "ret-shape:digest %d for %s=%d" % (len(d), a, b)
+            return r
+        if op == "TUP":
+            h = new_hash(name, pl)
+            h.update(S.IN.view(a, pl, data(a)), S.A.view(b, pl, data(b, 3000)))
+            h.update(S.X.view(a, other(pl), data(a, 3100)))
+            return finish(h, name)
+        raise HarnessBug("hash op %r" % op)
+
+
+# keccak.new(digest_bytes=..) conflicts with the digest_bits of the table entry: drop it for that sweep
+_orig_new_hash = new_hash
+
+
+def new_hash(name, pl, guard=True, first=None, over=None):  # noqa: F811
+    if over and "digest_bytes" in over and HASHES[name][0] == "keccak":
+        modname, kw0, block, fin = HASHES[name]
+        m = mod("Crypto.Hash.keccak")
+        return m.new(digest_bytes=over["digest_bytes"])
+    return _orig_new_hash(name, pl, guard, first, over)
+
+
+# ---------------------------------------------------------------------------------------------------
+# constructor parameters: key / IV / nonce lengths, segment sizes, tag lengths, counters
+# ---------------------------------------------------------------------------------------------------
+CT_MODES = {"AES": ("ECB", "CBC", "CFB", "OFB", "CTR", "OPENPGP", "CCM", "EAX", "SIV", "GCM", "OCB", "KW", "KWP")}
+for _c in ("DES", "DES3", "Blowfish", "CAST", "ARC2"):
+    CT_MODES[_c] = ("ECB", "CBC", "CFB", "OFB", "CTR", "OPENPGP", "EAX")
+IVNAME = {"CBC": "iv", "CFB": "iv", "OFB": "iv", "OPENPGP": "iv", "CTR": "nonce", "CCM": "nonce", "EAX": "nonce",
+          "SIV": "nonce", "GCM": "nonce", "OCB": "nonce"}
+DEFIV = {"CCM": 11, "EAX": 16, "SIV": 16, "GCM": 12, "OCB": 15}
+
+
+def use_cipher(c, mode, bs):
+    """a little traffic on a freshly constructed cipher object"""
+    if mode in ("KW", "KWP"):
+        ct = c.seal(data(16))
+        return "ok"
+    if mode == "SIV":
+        c.update(data(3, 3000))
+        c.encrypt_and_digest(data(17))
+        return "ok"
+    if mode in ("CCM", "EAX", "GCM", "OCB", "CHAPOLY"):
+        c.update(data(3, 3000))
+        c.encrypt(data(17))
+        if mode == "OCB":
+            c.encrypt()
+        c.digest()
+        return "ok"
+    c.encrypt(data(2 * bs))
+    return "ok"
+
+
+@family("ctor")
+class Ctor(object):
+    @staticmethod
+    def shards(tier):
+        out = [("ctor", c) for c in CT_MODES]
+        out += [("ctor", "ARC4"), ("ctor", "Salsa20"), ("ctor", "ChaCha20"), ("ctor", "ChaCha20_Poly1305")]
+        return out
+
+    @staticmethod
+    def gen(shard, tier):
+        c = shard[1]
+        out = []
+        if c in CT_MODES:
+            bs = BLOCK[c]
+            for mode in CT_MODES[c]:
+                kmax = 140 if c in ("ARC2",) else 70
+                for klen in range(0, kmax):
+                    for pl in "ES":
+                        out.append(("ctor", c, mode, "key", klen, 0, pl))
+                if mode in IVNAME:
+                    ivl = list(range(0, 36)) + ([63, 64, 65, 127, 128, 129, 255, 256, 257] if mode in ("GCM", "EAX", "SIV") else [])
+                    for n in ivl:
+                        for pl in "ES":
+                            out.append(("ctor", c, mode, "iv", n, 0, pl))
+                if mode == "CFB":
+                    for seg in (-8, 0, 1, 7, 8, 9, 16, 24, 63, 64, 65, 72, 120, 128, 129, 136, 256, 2 ** 31, 2 ** 32 + 8):
+                        out.append(("ctor", c, mode, "segment_size", seg, 0, "E"))
+                if mode == "CTR":
+                    for nlen in range(0, bs + 1):
+                        cl = bs - nlen
+                        for iv in (0, 1, 2 ** (8 * cl) - 2, 2 ** (8 * cl) - 1, 2 ** (8 * cl), 2 ** 64, 2 ** 128):
+                            out.append(("ctor", c, mode, "initial_value", nlen, iv, "E"))
+                        for ivb in range(0, bs + 2):
+                            for pl in "ES":
+                                out.append(("ctor", c, mode, "initial_value_bytes", nlen, ivb, pl))
+                    for nbits in (0, 8, 16, 32, 56, 64, 72, 120, 128, 136):
+                        for plen in (0, 1, bs // 2, bs - 1, bs):
+                            for le in (0, 1):
+                                out.append(("ctor", c, mode, "counter", nbits, plen * 2 + le, "E"))
+                if mode in ("CCM", "EAX", "GCM", "OCB"):
+                    for ml in list(range(-1, 20)) + [32, 255, 256, 2 ** 31]:
+                        out.append(("ctor", c, mode, "mac_len", ml, 0, "E"))
+                if mode == "CCM":
+                    for ml in (0, 1, 2 ** 16 - 1, 2 ** 16, 2 ** 32, 2 ** 64, -1):
+                        for al in (0, 1, 2 ** 16 - 2 ** 8 - 1, 2 ** 16 - 2 ** 8, 2 ** 32, 2 ** 64, -1):
+                            for nl in (7, 13):
+                                out.append(("ctor", c, mode, "ccm_len", ml, al * 16 + nl if al >= 0 else -nl, "E"))
+                if c == "ARC2":
+                    for ek in (-1, 0, 1, 39, 40, 41, 127, 128, 1023, 1024, 1025, 2 ** 31):
+                        out.append(("ctor", c, mode, "effective_keylen", ek, 0, "E"))
+        elif c == "ARC4":
+            for klen in list(range(0, 300)) + [511, 512, 4096]:
+                for pl in "ES":
+                    out.append(("ctor", c, "", "key", klen, 0, pl))
+            for drop in (0, 1, 255, 256, 257, 768, 3072, 65536):
+                out.append(("ctor", c, "", "drop", drop, 0, "E"))
+        else:
+            for klen in range(0, 70):
+                for pl in "ES":
+                    out.append(("ctor", c, "", "key", klen, 0, pl))
+            for n in range(0, 40):
+                for pl in "ES":
+                    out.append(("ctor", c, "", "iv", n, 0, pl))
+        return out
+
+    @staticmethod
+    def group(case):
+        return "%s.new(%s,%s)" % (case[1], case[2], case[3])
+
+    @staticmethod
+    def run(case):
+        _, c, mode, what, a, b, pl = case
+        m = mod("Crypto.Cipher." + c)
+        if c in ("ARC4", "Salsa20", "ChaCha20", "ChaCha20_Poly1305"):
+            klen = a if what == "key" else (16 if c == "ARC4" else 32)
+            key = S.K.view(klen, pl, data(klen, 1000))
+            if c == "ARC4":
+                o = m.new(key, drop=a) if what == "drop" else m.new(key)
+                o.encrypt(data(20))
+                return "ok"
+            nlen = a if what == "iv" else 8
+            o = m.new(key=key, nonce=S.N.view(nlen, pl, data(nlen, 2000)))
+            if c == "ChaCha20_Poly1305":
+                return use_cipher(o, "CHAPOLY", 64)
+            o.encrypt(data(70))
+            return "ok"
+        bs = BLOCK[c]
+        klen = a if what == "key" else (KEYLEN[c] * (2 if mode == "SIV" else 1))
+        key = S.K.view(klen, pl, data(klen, 1000))
+        kw = {}
+        if mode in IVNAME and mode != "CTR" and what != "ccm_len":
+            n = a if what == "iv" else DEFIV.get(mode, bs)
+            kw[IVNAME[mode]] = S.N.view(n, pl, data(n, 2000))
+        if mode == "CTR":
+            if what == "iv":
+                kw["nonce"] = data(a, 2000)
+            elif what == "initial_value":
+                kw["nonce"] = data(a, 2000)
+                kw["initial_value"] = b
+            elif what == "initial_value_bytes":
+                kw["nonce"] = data(a, 2000)
+                kw["initial_value"] = data(b, 2100)
+            elif what == "counter":
+                from Crypto.Util import Counter
+                plen, le = b // 2, b % 2
+                kw["counter"] = Counter.new(a, prefix=data(plen, 2000), suffix=data(max(0, bs - plen - a // 8), 2100),
+                                            initial_value=2 ** a - 1 if a else 0, little_endian=bool(le))
+            else:
+                kw["nonce"] = data(bs // 2, 2000)
+        if what in ("segment_size", "mac_len", "effective_keylen"):
+            kw[what] = a
+        if what == "ccm_len":
+            nl = abs(b) % 16
+            kw["nonce"] = S.N.view(nl, pl, data(nl, 2000))
+            if a >= 0:
+                kw["msg_len"] = a
+            if b >= 0:
+                kw["assoc_len"] = b // 16
+        o = m.new(key, getattr(m, "MODE_" + mode), **kw)
+        if what == "ccm_len":
+            # declared lengths are promises about later calls: a short message must then be refused
+            o.update(data(1, 3000))
+            o.encrypt(data(1))
+            o.digest()
+            return "ok"
+        return use_cipher(o, mode, bs)
+
+
+# ---------------------------------------------------------------------------------------------------
+# strxor, scrypt, bcrypt, PBKDF2 fast path, PKCS#1 decoders, cpuid
+# ---------------------------------------------------------------------------------------------------
+def _pkcs1_em(n, mlen, kind):
+    """an encoded message of n bytes; kind: v valid (message of mlen bytes), z no zero separator,
+    h wrong header, e early zero in the padding"""
+    if kind == "v" and n >= mlen + 11:
+        ps = bytes((x | 1) for x in data(n - mlen - 3, 4000))
+        return b"\x00\x02" + ps + b"\x00" + data(mlen, 4100)
+    if kind == "z":
+        return (b"\x00\x02" + bytes((x | 1) for x in data(max(n - 2, 0), 4000)))[:n]
+    if kind == "h":
+        return (b"\x00\x01" + bytes((x | 1) for x in data(max(n - 2, 0), 4000)))[:n]
+    if kind == "e":
+        return (b"\x00\x02\x55\x00" + bytes(max(n - 4, 0)))[:n]
+    return bytes((x | 1) for x in data(n, 4000))
+
+
+@family("misc")
+class Misc(object):
+    @staticmethod
+    def shards(tier):
+        out = [("misc", "strxor"), ("misc", "strxor_c"), ("misc", "scrypt"), ("misc", "bcrypt"), ("misc", "eks"),
+               ("misc", "oaep"), ("misc", "rsa"), ("misc", "cpuid"), ("misc", "pbkdf2")]
+        for r in range(4):
+            out.append(("misc", "pkcs1", r))
+        return out
+
+    @staticmethod
+    def gen(shard, tier):
+        part = shard[1]
+        th = tier == "thorough"
+        out = []
+        if part == "strxor":
+            for L in lens_for(tier, 16, big=True):
+                for pl in "ES":
+                    for v in ("r", "o", "p", "a", "b", "same", "v", "w", "big", "small", "m1", "m2"):
+                        if L > 8193 and v in ("p", "v", "w", "m1", "m2", "big", "small"):
+                            continue
+                        out.append(("misc", "strxor", L, v, pl))
+        elif part == "strxor_c":
+            for L in lens_for(tier, 16, big=True):
+                for pl in "ES":
+                    for v in ("r", "o", "p", "a", "v", "w", "big", "small"):
+                        for c in ((0, 255) if L <= 64 else (0x5A,)):
+                            out.append(("misc", "strxor_c", L, v, c, pl))
+            for c in (-1, 256, 2 ** 31, 2 ** 64):
+                out.append(("misc", "strxor_c", 5, "r", c, "E"))
+        elif part == "scrypt":
+            for (N, r, p) in ((2, 1, 1), (4, 1, 1), (16, 1, 1), (2, 2, 1), (2, 8, 1), (4, 3, 2), (16, 8, 2), (2, 1, 3),
+                              (2, 33, 1), (1024, 1, 1), (1, 1, 1), (0, 1, 1), (3, 1, 1), (2, 0, 1), (2, 1, 0), (2 ** 32, 1, 1),
+                              (2 ** 16, 1, 1), (-2, 1, 1), (2 ** 15, 1, 1) if th else (2 ** 12, 2, 1)):
+                for plen, slen in ((0, 0), (1, 1), (8, 16), (63, 7), (64, 64), (65, 65), (200, 129)):
+                    for klen in (1, 31, 32, 33, 64, 65, 100):
+                        for pl in "ES":
+                            if N >= 1024 and (plen, klen, pl) not in ((8, 32, "E"), (8, 65, "S")):
+                                continue
+                            out.append(("misc", "scrypt", N, r, p, plen, slen, klen, pl))
+            for nk in (1, 2, 3):
+                out.append(("misc", "scrypt_keys", 4, 1, 1, 8, 8, 33, nk))
+        elif part == "bcrypt":
+            for plen in range(0, 75):
+                for pl in "ES":
+                    out.append(("misc", "bcrypt", plen, 16, 4, pl))
+            for slen in range(0, 34):
+                for pl in "ES":
+                    out.append(("misc", "bcrypt", 8, slen, 4, pl))
+            for cost in (-1, 0, 3, 4, 5, 6, 31 + 1, 2 ** 31):
+                out.append(("misc", "bcrypt", 8, 16, cost, "E"))
+            for plen in (0, 1, 8, 71, 72):
+                for pl in "ES":
+                    out.append(("misc", "bcrypt_check", plen, 16, 4, pl))
+            for hl in list(range(0, 64)):
+                out.append(("misc", "bcrypt_check_hash", 8, hl, 4, "E"))
+        elif part == "eks":
+            # Crypto.Cipher._EKSBlowfish (the seam below bcrypt): key 1..72 (+ illegal), salt lengths, cost, invert.
+            # key length 0 is excluded: blowfish.c xorP() then loops forever without touching memory (reported as an
+            # observation by the driver, it is not a memory-safety matter)
+            for klen in range(1, 76):
+                for inv in (0, 1):
+                    for pl in "ES":
+                        out.append(("misc", "eks", klen, 16, 2, inv, pl))
+            for slen in range(1, 34):
+                for inv in (0, 1):
+                    for pl in "ES":
+                        out.append(("misc", "eks", 8, slen, 2, inv, pl))
+            for cost in (0, 1, 5):
+                for L in (0, 1, 7, 8, 9, 16, 24):
+                    for pl in "ES":
+                        out.append(("misc", "eks_use", 8, 16, cost, L, pl))
+            # the empty salt comes last: one case per placement
+            for pl in "ES":
+                out.append(("misc", "eks", 8, 0, 2, 1, pl))
+        elif part == "pkcs1":
+            r = shard[2]
+            ems = list(range(0, 41)) + ([64, 128, 256] if not th else [63, 64, 65, 127, 128, 129, 255, 256, 257, 512])
+            for n in ems:
+                if n % 4 != r:
+                    continue
+                sents = sorted({x for x in (0, 1, 2, n - 12, n - 11, n - 10, n - 9, n - 1, n, n + 1, n + 2, 2 * n + 1) if x >= 0})
+                exps = sorted({x for x in (0, 1, 2, n - 13, n - 12, n - 11, n - 10, n - 9, n - 1, n, n + 1) if x >= 0}) + \
+                    [2 ** 31 - 1, 2 ** 31, 2 ** 32 - 1, 2 ** 32, 2 ** 63, 2 ** 64 - 1]
+                if th and n <= 40:
+                    sents = list(range(0, n + 3))
+                    exps = list(range(0, n + 2)) + [2 ** 31 - 1, 2 ** 31, 2 ** 32 - 1, 2 ** 32, 2 ** 63, 2 ** 64 - 1]
+                kinds = [("v", m) for m in sorted({0, 1, max(n - 12, 0), max(n - 11, 0)}) if n >= m + 11] + \
+                    [("z", 0), ("h", 0), ("e", 0), ("x", 0)]
+                for sl in sents:
+                    for ex in exps:
+                        for kind, mlen in kinds:
+                            for pl in "ES":
+                                out.append(("misc", "pkcs1", n, sl, ex, kind, mlen, pl))
+                for ol in (0, 1, n - 1, n + 1):
+                    if ol >= 0 and ol != n:
+                        out.append(("misc", "pkcs1_out", n, 0, 0, "z", ol, "E"))
+        elif part == "oaep":
+            hs = (0, 1, 16, 20, 32, 48, 64)
+            for n in list(range(0, 41)) + [63, 64, 65, 127, 128, 129, 130, 131, 256]:
+                for h in hs:
+                    for dl in sorted({x for x in (0, 1, n - 2 - h, n - 1 - h, n - h, n, n + 1) if x >= 0}):
+                        for kind in ("v0", "v1", "vmax", "no1", "y1", "lh", "ps"):
+                            for pl in "ES":
+                                out.append(("misc", "oaep", n, h, dl, kind, pl))
+        elif part == "rsa":
+            for mlen in list(range(0, 8)) + [53, 54, 55, 116, 117, 118]:
+                for sl in (0, 1, 16, 127, 128, 129):
+                    for ex in (0, mlen, mlen + 1):
+                        out.append(("misc", "rsa15", mlen, sl, ex, "E"))
+            for mlen in (0, 1, 61, 62, 63):
+                for h in ("SHA1", "SHA256"):
+                    out.append(("misc", "rsaoaep", mlen, h, 0, "E"))
+            for n in range(0, 12):
+                out.append(("misc", "rsa15raw", n, 16, 0, "E"))
+        elif part == "cpuid":
+            for i in range(8):
+                out.append(("misc", "cpuid", i))
+        elif part == "pbkdf2":
+            for h in ("MD5", "SHA1", "SHA224", "SHA256", "SHA384", "SHA512"):
+                dl = mod_digest_size(h)
+                for plen in (0, 1, 63, 64, 65, 127, 128, 129, 200):
+                    for slen in (0, 1, 8, 64):
+                        for dk in (1, dl - 1, dl, dl + 1, 2 * dl + 1):
+                            for cnt in (1, 2, 3):
+                                for pl in "ES":
+                                    if pl == "S" and cnt != 2:
+                                        continue
+                                    out.append(("misc", "pbkdf2", h, plen, slen, dk, cnt, pl))
+        return out
+
+    @staticmethod
+    def group(case):
+        return case[1]
+
+    @staticmethod
+    def run(case):
+        kind = case[1]
+        if kind == "strxor":
+            _, _, L, v, pl = case
+            from Crypto.Util.strxor import strxor
+            b = S.A.view(L, pl, data(L, 3000))
+            if v in ("v", "w"):
+                iv, ov = C.io_views(L, pl, v, 16)
+                strxor(iv, b, output=ov)
+                return "ok"
+            if v == "m2":
+                strxor(S.IN.view(L + 1, pl, data(L + 1)), b)
+                return "length-mismatch-accepted"
+            a = S.IN.view(L, pl, data(L))
+            if v == "r":
+                r = strxor(a, b)
+                return "ok" if len(r) == L else "ret-shape"
+            if v == "o":
+                strxor(a, b, output=S.OUT.view(L, pl))
+            elif v == "p":
+                strxor(a, b, output=S.OUT.view(L, other(pl)))
+            elif v == "a":
+                strxor(a, b, output=a)
+            elif v == "b":
+                strxor(a, b, output=b)
+            elif v == "same":
+                strxor(a, a, output=S.OUT.view(L, pl))
+            elif v == "big":
+                strxor(a, b, output=S.OUT.view(L + 1, pl))
+                return "wrong-size-output-accepted"
+            elif v == "small":
+                strxor(a, b, output=S.OUT.view(max(L - 1, 0), pl))
+                return "wrong-size-output-accepted" if L else "ok"
+            elif v == "m1":
+                strxor(a, S.A.view(L + 1, pl, data(L + 1, 3000)))
+                return "length-mismatch-accepted"
+            return "ok"
+        if kind == "strxor_c":
+            _, _, L, v, c, pl = case
+            from Crypto.Util.strxor import strxor_c
+            if v in ("v", "w"):
+                iv, ov = C.io_views(L, pl, v, 16)
+                strxor_c(iv, c, output=ov)
+                return "ok"
+            a = S.IN.view(L, pl, data(L))
+            if v == "r":
+                r = strxor_c(a, c)
+                return "ok" if len(r) == L else "ret-shape"
+            if v == "o":
+                strxor_c(a, c, output=S.OUT.view(L, pl))
+            elif v == "p":
+                strxor_c(a, c, output=S.OUT.view(L, other(pl)))
+            elif v == "a":
+                strxor_c(a, c, output=a)
+            elif v == "big":
+                strxor_c(a, c, output=S.OUT.view(L + 1, pl))
+                return "wrong-size-output-accepted"
+            elif v == "small":
+                strxor_c(a, c, output=S.OUT.view(max(L - 1, 0), pl))
+                return "wrong-size-output-accepted" if L else "ok"
+            return "ok"
+        if kind in ("scrypt", "scrypt_keys"):
+            from Crypto.Protocol.KDF import scrypt
+            if kind == "scrypt_keys":
+                _, _, N, r, p, plen, slen, klen, nk = case
+                ks = scrypt(data(plen, 1000).hex()[:plen], data(slen, 2000), klen, N, r, p, num_keys=nk)
+                return "ok"
+            _, _, N, r, p, plen, slen, klen, pl = case
+            pw = S.K.view(plen, pl, data(plen, 1000))
+            salt = S.N.view(slen, pl, data(slen, 2000))
+            k = scrypt(pw, salt, klen, N, r, p)
+            return "ok" if len(k) == klen else "ret-shape"
+        if kind in ("bcrypt", "bcrypt_check", "bcrypt_check_hash"):
+            from Crypto.Protocol.KDF import bcrypt, bcrypt_check
+            _, _, plen, slen, cost, pl = case
+            pwb = bytes((x % 255) + 1 for x in data(plen, 1000))
+            pw = S.K.view(plen, pl, pwb)
+            if kind == "bcrypt":
+                h = bcrypt(pw, cost, S.N.view(slen, pl, data(slen, 2000)))
+                return "ok" if len(h) == 60 else "ret-shape"
+            if kind == "bcrypt_check":
+                h = bcrypt(pwb, cost, data(16, 2000))
+                bcrypt_check(pw, S.X.view(len(h), pl, h))
+                return "ok"
+            h = bcrypt(pwb, cost, data(16, 2000))
+            hv = S.X.view(slen, pl, (h * 2)[:slen])
+            bcrypt_check(pw, hv)
+            return "ok" if slen == 60 else "truncated-hash-accepted"
+        if kind in ("eks", "eks_use"):
+            from Crypto.Cipher import _EKSBlowfish
+            if kind == "eks":
+                _, _, klen, slen, cost, inv, pl = case
+                L = 8
+            else:
+                _, _, klen, slen, cost, L, pl = case
+                inv = 1
+            c = _EKSBlowfish.new(S.K.view(klen, pl, data(klen, 1000)), _EKSBlowfish.MODE_ECB,
+                                 S.N.view(slen, pl, data(slen, 2000)), cost, bool(inv))
+            c.encrypt(S.IN.view(L, pl, data(L)), output=S.OUT.view(L, pl))
+            c.decrypt(S.IN.view(L, pl, data(L)))
+            return "ok"
+        if kind in ("pkcs1", "pkcs1_out"):
+            from Crypto.Cipher import _pkcs1_oaep_decode as D
+            _, _, n, sl, ex, k, mlen, pl = case
+            em = S.IN.view(n, pl, _pkcs1_em(n, mlen if kind == "pkcs1" else 0, k))
+            sent = S.K.view(sl, pl, data(sl, 1000))
+            if kind == "pkcs1_out":
+                D.pkcs1_decode(em, sent, ex, S.OUT.view(mlen, pl))
+                return "wrong-size-output-accepted"
+            out = S.OUT.view(n, pl)
+            r = D.pkcs1_decode(em, sent, ex, out)
+            if not isinstance(r, int) or r < -1 or r > n:
+                return "ret-shape:%r" % (r,)
+            return "ok" if r >= 0 else "ok-refused"
+        if kind == "oaep":
+            from Crypto.Cipher import _pkcs1_oaep_decode as D
+            _, _, n, h, dl, k, pl = case
+            lh = data(h, 1000)
+            # db = lHash || PS || 01 || M
+            body = max(dl - h, 0)
+            if k == "v0":
+                db = lh + bytes(max(body - 1, 0)) + b"\x01"
+            elif k == "v1":
+                db = lh + bytes(max(body - 2, 0)) + b"\x01" + b"M"
+            elif k == "vmax":
+                db = lh + b"\x01" + data(max(body - 1, 0), 4100)
+            elif k == "no1":
+                db = lh + bytes(body)
+            elif k == "lh":
+                db = bytes(x ^ 1 for x in lh) + bytes(max(body - 1, 0)) + b"\x01"
+            elif k == "ps":
+                db = lh + b"\x02" + bytes(max(body - 2, 0)) + b"\x01"
+            else:
+                db = lh + bytes(max(body - 1, 0)) + b"\x01"
+            db = (db + bytes(dl))[:dl]
+            em = bytes([1 if k == "y1" else 0]) + data(max(n - 1, 0), 4000)
+            em = em[:n]
+            r = D.oaep_decode(S.IN.view(n, pl, em), S.K.view(h, pl, lh), S.A.view(dl, pl, db))
+            if not isinstance(r, int) or r < -1 or r > dl:
+                return "ret-shape:%r" % (r,)
+            return "ok" if r >= 0 else "ok-refused"
+        if kind in ("rsa15", "rsaoaep", "rsa15raw"):
+            from ..keys import rsa_key, Stream
+            from Crypto.Cipher import PKCS1_v1_5, PKCS1_OAEP
+            key = rsa_key(1024)
+            _, _, a, b, c, pl = case
+            if kind == "rsa15":
+                ct = PKCS1_v1_5.new(key, randfunc=Stream("c17")).encrypt(data(a))
+                r = PKCS1_v1_5.new(key).decrypt(S.IN.view(len(ct), pl, ct), S.K.view(b, pl, data(b, 1000)), expected_pt_len=c)
+                return "ok"
+            if kind == "rsa15raw":
+                # ciphertexts that decrypt to short integers (em with leading zeros)
+                ct = pow(a + 2, key.e, key.n).to_bytes(128, "big")
+                PKCS1_v1_5.new(key).decrypt(ct, S.K.view(b, pl, data(b, 1000)))
+                return "ok"
+            hm = mod("Crypto.Hash." + b)
+            ct = PKCS1_OAEP.new(key, hashAlgo=hm, randfunc=Stream("c17")).encrypt(data(a))
+            PKCS1_OAEP.new(key, hashAlgo=hm).decrypt(S.IN.view(len(ct), pl, ct))
+            return "ok"
+        if kind == "cpuid":
+            from Crypto.Util import _cpu_features
+            a, b = _cpu_features.have_aes_ni(), _cpu_features.have_clmul()
+            return "ok" if a in (0, 1, True, False) and b in (0, 1, True, False) else "ret-shape"
+        if kind == "pbkdf2":
+            from Crypto.Protocol.KDF import PBKDF2
+            _, _, h, plen, slen, dk, cnt, pl = case
+            r = PBKDF2(S.K.view(plen, pl, data(plen, 1000)), S.N.view(slen, pl, data(slen, 2000)), dk, cnt,
+                       hmac_hash_module=mod("Crypto.Hash." + h))
+            return "ok" if len(r) == dk else "ret-shape"
+        raise HarnessBug("misc kind %r" % kind)
+
+
+def mod_digest_size(h):
+    return {"MD5": 16, "SHA1": 20, "SHA224": 28, "SHA256": 32, "SHA384": 48, "SHA512": 64}[h]
+
+
+# ---------------------------------------------------------------------------------------------------
+# elliptic curves
+# ---------------------------------------------------------------------------------------------------
+WCURVES = ("p192", "p224", "p256", "p384", "p521")
+ECURVES = ("ed25519", "ed448")
+XCURVES = ("curve25519", "curve448")
+FIELD = {"p192": 2 ** 192 - 2 ** 64 - 1, "p224": 2 ** 224 - 2 ** 96 + 1, "p256": 2 ** 256 - 2 ** 224 + 2 ** 192 + 2 ** 96 - 1,
+         "p384": 2 ** 384 - 2 ** 128 - 2 ** 96 + 2 ** 32 - 1, "p521": 2 ** 521 - 1, "ed25519": 2 ** 255 - 19,
+         "ed448": 2 ** 448 - 2 ** 224 - 1, "curve25519": 2 ** 255 - 19, "curve448": 2 ** 448 - 2 ** 224 - 1}
+PATTERNS = ("01", "ff", "80", "seed", "one-low")
+
+
+def scalar(klen, pat):
+    if klen == 0:
+        return 0
+    if pat == "01":
+        b = b"\x01" + bytes(klen - 1)
+    elif pat == "ff":
+        b = b"\xff" * klen
+    elif pat == "80":
+        b = b"\x80" + bytes(klen - 1)
+    elif pat == "one-low":
+        b = b"\x01" * klen
+    else:
+        b = bytes([data(1, 6000 + klen)[0] | 1]) + data(klen - 1, 6100)
+    return int.from_bytes(b, "big")
+
+
+def coord_alphabet(curve):
+    from Crypto.PublicKey._point import _curves
+    c = _curves[curve]
+    p = FIELD[curve]
+    size = (c.modulus_bits + 7) // 8
+    vals = [0, 1, 2, p - 1, p, p + 1, 2 ** c.modulus_bits - 1, 2 ** (8 * size) - 1, 2 ** (8 * size), 2 ** (8 * size + 8) - 1]
+    if hasattr(c.G, "y"):
+        vals += [int(c.G.x), int(c.G.y), int(c.G.x) + p, p - int(c.G.y)]
+    else:
+        vals += [int(c.G.x), int(c.G.x) + p, 9, 5]
+    return vals
+
+
+NCOORD = 14
+
+
+@family("ec")
+class Ec(object):
+    @staticmethod
+    def shards(tier):
+        out = []
+        for c in WCURVES + ECURVES + XCURVES:
+            out.append(("ec", c, "new"))
+            out.append(("ec", c, "arith"))
+            for pat in PATTERNS:
+                out.append(("ec", c, "mul", pat))
+        out.append(("ec", "high", "api"))
+        return out
+
+    @staticmethod
+    def gen(shard, tier):
+        _, c, part = shard[:3]
+        th = tier == "thorough"
+        out = []
+        if part == "new":
+            if c in XCURVES:
+                for i in range(NCOORD):
+                    out.append(("ec", c, "new", i, 0))
+                out.append(("ec", c, "new", -1, 0))
+            else:
+                for i in range(NCOORD):
+                    for j in range(NCOORD):
+                        out.append(("ec", c, "new", i, j))
+        elif part == "arith":
+            pts = ("G", "2G", "7G", "-G", "inf", "nG-1")
+            for a in pts:
+                for b in pts:
+                    for op in ("add", "iadd", "eq"):
+                        out.append(("ec", c, "arith", op, a, b))
+                for op in ("double", "neg", "copy", "xy", "mul0", "mul1", "mulorder", "set"):
+                    out.append(("ec", c, "arith", op, a, a))
+        elif part == "mul":
+            pat = shard[3]
+            kmax = 81
+            heavy = c in ("p521", "ed448", "curve448", "p384")
+            for klen in range(0, kmax):
+                if not th and heavy and klen > 40 and klen % 8 not in (0, 1, 7):
+                    continue
+                for base in ("G", "7G", "inf"):
+                    if base == "inf" and klen % 8 not in (0, 1):
+                        continue
+                    out.append(("ec", c, "mul", pat, klen, base))
+        elif part == "api":
+            for curve in WCURVES + ECURVES + XCURVES:
+                for what in ("construct", "dh", "sign", "export"):
+                    out.append(("ec", curve, "api", what))
+        return out
+
+    @staticmethod
+    def group(case):
+        return "%s.%s" % (case[1], case[2])
+
+    @staticmethod
+    def point(c, which):
+        from Crypto.PublicKey._point import _curves
+        cv = _curves[c]
+        G = cv.G
+        if which == "G":
+            return G.copy()
+        if which == "2G":
+            return G * 2
+        if which == "7G":
+            return G * 7
+        if which == "-G":
+            return -G if c not in XCURVES else G * 3
+        if which == "inf":
+            return G.point_at_infinity()
+        if which == "nG-1":
+            return G * (int(cv.order) - 1)
+        raise HarnessBug(which)
+
+    @staticmethod
+    def touch(P, c):
+        if c in XCURVES:
+            try:
+                return int(P.x)
+            except ValueError:
+                return None
+        return (int(P.x), int(P.y))
+
+    @staticmethod
+    def run(case):
+        _, c, part = case[:3]
+        from Crypto.PublicKey._point import _curves, EccPoint, EccXPoint
+        if part == "new":
+            vals = coord_alphabet(c)
+            if len(vals) != NCOORD:
+                raise HarnessBug("coordinate alphabet size %d" % len(vals))
+            i, j = case[3], case[4]
+            if c in XCURVES:
+                P = EccXPoint(None if i < 0 else vals[i], c)
+                Ec.touch(P, c)
+                Q = P * 8
+                Ec.touch(Q, c)
+                return "ok"
+            P = EccPoint(vals[i], vals[j], c)
+            Ec.touch(P, c)
+            Q = P * 5 + P
+            Ec.touch(Q, c)
+            return "ok"
+        if part == "arith":
+            _, _, _, op, a, b = case
+            P, Q = Ec.point(c, a), Ec.point(c, b)
+            if op == "add":
+                R = P + Q if c not in XCURVES else None
+                if R is None:
+                    raise TypeError("no addition on Montgomery x-only points")
+                Ec.touch(R, c)
+            elif op == "iadd":
+                if c in XCURVES:
+                    raise TypeError("no addition on Montgomery x-only points")
+                P += Q
+                P += P
+                Ec.touch(P, c)
+            elif op == "eq":
+                _ = (P == Q), (P != Q), (P == P)
+            elif op == "double":
+                P.double()
+                Ec.touch(P, c)
+            elif op == "neg":
+                R = -P
+                Ec.touch(R, c)
+            elif op == "copy":
+                R = P.copy()
+                del P
+                gc.collect()
+                Ec.touch(R, c)
+            elif op == "xy":
+                Ec.touch(P, c)
+                P.is_point_at_infinity()
+            elif op == "mul0":
+                Ec.touch(P * 0, c)
+            elif op == "mul1":
+                Ec.touch(P * 1, c)
+            elif op == "mulorder":
+                n = int(_curves[c].order)
+                Ec.touch(P * n, c)
+                Ec.touch(P * (n + 1), c)
+            elif op == "set":
+                R = Ec.point(c, "7G")
+                R.set(P)
+                del P
+                gc.collect()
+                Ec.touch(R, c)
+            return "ok"
+        if part == "mul":
+            _, _, _, pat, klen, base = case
+            k = scalar(klen, pat)
+            if base == "G":
+                P = _curves[c].G * k          # generator: fixed-base tables on the NIST curves
+            else:
+                P = Ec.point(c, base)
+                P *= k
+            Ec.touch(P, c)
+            return "ok"
+        if part == "api":
+            from Crypto.PublicKey import ECC
+            what = case[3]
+            seedlen = {"ed25519": 32, "ed448": 57, "curve25519": 32, "curve448": 56}
+            if c in seedlen:
+                key = ECC.construct(curve=c, seed=data(seedlen[c], 1000))
+            else:
+                key = ECC.construct(curve=c, d=scalar(20, "seed"))
+            if what == "construct":
+                Ec.touch(key.pointQ, c)
+                key.public_key()
+            elif what == "export":
+                fmt = "raw" if c in seedlen else "SEC1"
+                blob = key.public_key().export_key(format=fmt)
+                k2 = ECC.import_key(blob, curve_name=c)
+                Ec.touch(k2.pointQ, c)
+                der = key.export_key(format="DER")
+                ECC.import_key(der)
+            elif what == "dh":
+                from Crypto.Protocol.DH import key_agreement
+                if c in ECURVES:
+                    raise TypeError("no DH on Edwards keys")
+                if c in seedlen:
+                    other_k = ECC.construct(curve=c, seed=data(seedlen[c], 1100))
+                else:
+                    other_k = ECC.construct(curve=c, d=scalar(21, "seed"))
+                key_agreement(static_priv=key, static_pub=other_k.public_key(), kdf=lambda x: x)
+            elif what == "sign":
+                from Crypto.Hash import SHA512, SHAKE256
+                if c in XCURVES:
+                    raise TypeError("no signatures with Montgomery keys")
+                if c in ECURVES:
+                    from Crypto.Signature import eddsa
+                    s = eddsa.new(key, "rfc8032").sign(data(33))
+                    eddsa.new(key.public_key(), "rfc8032").verify(S.IN.view(33, "E", data(33)), S.T.view(len(s), "E", s))
+                else:
+                    from Crypto.Signature import DSS
+                    h = SHA512.new(data(33))
+                    s = DSS.new(key, "deterministic-rfc6979").sign(h)
+                    DSS.new(key.public_key(), "fips-186-3").verify(h, S.T.view(len(s), "E", s))
+            return "ok"
+        raise HarnessBug("ec part %r" % part)
+
+
+# ---------------------------------------------------------------------------------------------------
+# modular exponentiation / Montgomery multiplication (Crypto.Math._IntegerCustom over _modexp)
+# ---------------------------------------------------------------------------------------------------
+def operand(nbytes, pat, odd=None):
+    if nbytes == 0:
+        return 0
+    if pat == "ff":
+        v = 2 ** (8 * nbytes) - 1
+    elif pat == "80":
+        v = 2 ** (8 * nbytes - 1) + 1
+    elif pat == "01":
+        v = 2 ** (8 * nbytes - 8) + 3
+    else:
+        v = int.from_bytes(bytes([data(1, 6500 + nbytes)[0] | 0x80]) + data(nbytes - 1, 6600), "big")
+    if odd is True:
+        v |= 1
+    elif odd is False:
+        v &= ~1
+    return v
+
+
+@family("modexp")
+class Modexp(object):
+    @staticmethod
+    def sizes(tier):
+        if tier == "thorough":
+            return list(range(1, 281))
+        s = set(range(1, 42))
+        for w in range(6, 34):
+            s.update((8 * w - 1, 8 * w, 8 * w + 1))
+        s.update((265, 272))
+        return sorted(s)
+
+    @staticmethod
+    def shards(tier):
+        return [("modexp", pat) for pat in ("ff", "80", "01", "seed")] + [("modexp", "mul")]
+
+    @staticmethod
+    def gen(shard, tier):
+        pat = shard[1]
+        out = []
+        if pat == "mul":
+            for n in Modexp.sizes(tier):
+                for mp in ("ff", "80", "seed"):
+                    for tp in ("zero", "one", "m-1", "seed", "m+5", "neg"):
+                        out.append(("modexp", "mul", n, mp, tp))
+            for mp in ("even", "zero", "neg", "one"):
+                out.append(("modexp", "mul", 8, mp, "seed"))
+            return out
+        for n in Modexp.sizes(tier):
+            for bp in ("zero", "one", "m-1", "seed", "big"):
+                for ep in ("0", "1", "2", "65537", "short", "full", "ff", "long"):
+                    if n > 72 and ep in ("full", "ff", "long") and bp != "seed":
+                        continue
+                    out.append(("modexp", "pow", n, pat, bp, ep))
+        for mp in ("even", "zero", "neg", "one"):
+            out.append(("modexp", "pow", 8, mp, "seed", "short"))
+        return out
+
+    @staticmethod
+    def group(case):
+        return "IntegerCustom." + case[1]
+
+    @staticmethod
+    def modulus(n, mp):
+        if mp == "even":
+            return operand(n, "seed", odd=False)
+        if mp == "zero":
+            return 0
+        if mp == "neg":
+            return -operand(n, "seed", odd=True)
+        if mp == "one":
+            return 1
+        return operand(n, mp, odd=True)
+
+    @staticmethod
+    def run(case):
+        from Crypto.Math._IntegerCustom import IntegerCustom
+        if case[1] == "mul":
+            _, _, n, mp, tp = case
+            m = Modexp.modulus(n, mp)
+            t = {"zero": 0, "one": 1, "m-1": m - 1, "seed": operand(n, "seed") % max(m, 1), "m+5": m + 5, "neg": -3}[tp]
+            r = IntegerCustom._mult_modulo_bytes(IntegerCustom(t), IntegerCustom(operand(n, "seed")), IntegerCustom(m))
+            if int.from_bytes(r, "big") != (t * operand(n, "seed")) % m:
+                return "wrong-product"
+            return "ok"
+        _, _, n, mp, bp, ep = case
+        m = Modexp.modulus(n, mp)
+        base = {"zero": 0, "one": 1, "m-1": m - 1, "seed": operand(n, "seed") % max(abs(m), 2), "big": operand(n + 9, "seed")}[bp]
+        e = {"0": 0, "1": 1, "2": 2, "65537": 65537, "short": 0xC0FFEE, "full": operand(n, "seed"), "ff": 2 ** (8 * n) - 1,
+             "long": operand(n + 9, "ff")}[ep]
+        x = IntegerCustom(base)
+        x.inplace_pow(e, m)
+        if m > 1 and int(x) != pow(base, e, m):
+            return "wrong-power"
+        return "ok"
+
+
+# ---------------------------------------------------------------------------------------------------
+# object life-cycle histories
+# ---------------------------------------------------------------------------------------------------
+LIFE_OPS = ("useA", "useB", "copy", "delA", "delB", "gc", "newB", "finA")
+
+
+def life_classes():
+    """name -> (create(), use(obj), finish(obj), copy(obj) or None)"""
+    L = {}
+
+    def hashcls(name):
+        def create():
+            return new_hash(name, "E", guard=False)
+
+        def use(o):
+            o.update(S.IN.view(37, "E", data(37)))
+
+        def fin(o):
+            finish(o, name)
+
+        cp = None if HASHES[name][0].startswith(NO_COPY) else (lambda o: o.copy())
+        return create, use, fin, cp
+    for n in HASHES:
+        L["hash:" + n] = hashcls(n)
+
+    def blk(t):
+        bs = BLOCK[t[0]]
+
+        def create():
+            return C.new_blk(t, "E")
+
+        def use(o):
+            o.encrypt(S.IN.view(2 * bs, "E", data(2 * bs)), output=S.OUT.view(2 * bs, "E"))
+
+        def fin(o):
+            o.encrypt(data(bs))
+        return create, use, fin, None
+    for c in ("AES", "DES3", "DES", "Blowfish", "CAST", "ARC2"):
+        for mode in ("ECB", "CBC", "CFB", "OFB", "CTR"):
+            t = (c, KEYLEN[c], mode, (("segment_size", 8),) if mode == "CFB" else ())
+            L["blk:%s-%s" % (c, mode)] = blk(t)
+    L["blk:AES-ECB-noaesni"] = blk(("AES", 16, "ECB", (("use_aesni", False),)))
+    L["blk:AES-CTR-noaesni"] = blk(("AES", 32, "CTR", (("use_aesni", False),)))
+
+    def stream(t):
+        def create():
+            return C.new_stream(t, "E")
+
+        def use(o):
+            o.encrypt(S.IN.view(70, "E", data(70)))
+        return create, use, use, None
+    for t in (("ARC4", 16, 0), ("Salsa20", 32, 8), ("ChaCha20", 32, 12), ("ChaCha20", 32, 24)):
+        L["stream:%s-%d" % (t[0], t[2])] = stream(t)
+
+    def aead(t):
+        mode = t[2]
+
+        def create():
+            return C.new_aead(t, "E", msg_len=40, assoc_len=37)
+
+        def use(o):
+            o.update(S.A.view(37, "E", data(37, 3000)))
+
+        def fin(o):
+            if mode == "SIV":
+                o.encrypt_and_digest(data(40))
+            else:
+                o.encrypt(S.IN.view(40, "E", data(40)))
+                if mode == "OCB":
+                    o.encrypt()
+                o.digest()
+        return create, use, fin, None
+    for t in (("AES", 16, "GCM", ()), ("AES", 16, "GCM", (("use_clmul", False),)), ("AES", 16, "CCM", (("declare", True),)),
+              ("AES", 16, "EAX", ()), ("DES3", 24, "EAX", ()), ("AES", 32, "SIV", ()), ("AES", 16, "OCB", ()),
+              ("ChaCha20_Poly1305", 32, "CHAPOLY", ())):
+        L["aead:%s-%s%s" % (t[0], t[2], "-noclmul" if t[3] and t[3][0][0] == "use_clmul" else "")] = aead(t)
+
+    def point(c):
+        def create():
+            return Ec.point(c, "7G")
+
+        def use(o):
+            o *= 3
+            Ec.touch(o, c)
+
+        def fin(o):
+            Ec.touch(o, c)
+        return create, use, fin, (lambda o: o.copy())
+    for c in WCURVES + ECURVES + XCURVES:
+        L["point:" + c] = point(c)
+
+    def eks():
+        from Crypto.Cipher import _EKSBlowfish
+
+        def create():
+            return _EKSBlowfish.new(data(9, 1000), _EKSBlowfish.MODE_ECB, data(16, 2000), 1, True)
+
+        def use(o):
+            o.encrypt(S.IN.view(16, "E", data(16)))
+        return create, use, use, None
+    L["blk:EKSBlowfish"] = eks()
+    return L
+
+
+LIFE_NAMES = None
+
+
+def life_names():
+    names = ["hash:" + n for n in HASHES]
+    for c in ("AES", "DES3", "DES", "Blowfish", "CAST", "ARC2"):
+        for mode in ("ECB", "CBC", "CFB", "OFB", "CTR"):
+            names.append("blk:%s-%s" % (c, mode))
+    names += ["blk:AES-ECB-noaesni", "blk:AES-CTR-noaesni", "stream:ARC4-0", "stream:Salsa20-8", "stream:ChaCha20-12",
+              "stream:ChaCha20-24", "aead:AES-GCM", "aead:AES-GCM-noclmul", "aead:AES-CCM", "aead:AES-EAX", "aead:DES3-EAX",
+              "aead:AES-SIV", "aead:AES-OCB", "aead:ChaCha20_Poly1305-CHAPOLY"]
+    names += ["point:" + c for c in WCURVES + ECURVES + XCURVES]
+    names.append("blk:EKSBlowfish")
+    return names
+
+
+_LIFE = {}
+
+
+@family("life")
+class Life(object):
+    @staticmethod
+    def shards(tier):
+        return [("life", n) for n in life_names()]
+
+    @staticmethod
+    def gen(shard, tier):
+        name = shard[1]
+        depth = 4
+        out = []
+        for d in range(1, depth + 1):
+            for h in itertools.product(range(len(LIFE_OPS)), repeat=d):
+                # canonical form: a history never starts with an operation on the (not yet existing) clone
+                if LIFE_OPS[h[0]] in ("useB", "delB"):
+                    continue
+                out.append(("life", name, "".join(str(x) for x in h)))
+        return out
+
+    @staticmethod
+    def group(case):
+        return "life:" + case[1]
+
+    @staticmethod
+    def run(case):
+        _, name, hist = case
+        if not _LIFE:
+            _LIFE.update(life_classes())
+        create, use, fin, cp = _LIFE[name]
+        A = create()
+        B = None
+        finA = finB = False
+        for ch in hist:
+            op = LIFE_OPS[int(ch)]
+            try:
+                if op == "useA" and A is not None:
+                    use(A)
+                elif op == "useB" and B is not None:
+                    use(B)
+                elif op == "copy" and A is not None:
+                    B = cp(A) if cp else create()
+                elif op == "delA":
+                    A = None
+                elif op == "delB":
+                    B = None
+                elif op == "gc":
+                    gc.collect()
+                elif op == "newB":
+                    B = create()
+                elif op == "finA" and A is not None:
+                    fin(A)
+            except (TypeError, ValueError):
+                pass                     # call-order refusals are legal; the history continues
+        # everything still alive is used once more and finished, in both orders of destruction
+        for o in (B, A):
+            if o is not None:
+                try:
+                    use(o)
+                except (TypeError, ValueError):
+                    pass
+                try:
+                    fin(o)
+                except (TypeError, ValueError):
+                    pass
+        A = None
+        gc.collect()
+        if B is not None:
+            try:
+                fin(B)
+            except (TypeError, ValueError):
+                pass
+        return "ok"
